@@ -391,7 +391,7 @@ def run_case(case: dict[str, Any]) -> Outcome:
                 fits_wire = wire_cap is None or body[j] + margin <= wire_cap
                 # with object compression the server charges the pre-compression size (documented), so only the
                 # uncompressed configuration lets us say "this upload fitted"
-                fits_ext = ext_cap is None or (upload[j] <= ext_cap and not oc)
+                fits_ext = ext_cap is None or (upload[j] + margin <= ext_cap and not oc)
                 if oc and "max_externalized_response_bytes" in msg:
                     fits_ext = False
                 if fits_wire and fits_ext and ("max_response_bytes" in msg or "max_externalized_response_bytes" in msg):
@@ -508,5 +508,29 @@ cases = st.builds(
 )
 
 
+# focused family: several externalised producer batches inside ONE turn (roomy wire cap), external cap placed on the
+# running sum of uploads / on "uploads so far + logical size of the next batch"
+producer_ext_cases = st.builds(
+    _mk,
+    st.just("producer"),
+    st.lists(_item, min_size=2, max_size=6),
+    st.fixed_dictionaries(
+        {
+            "storage": st.just(True),
+            "thr": st.sampled_from([{"abs": 0}, {"abs": 0}, {"abs": 1}, {"item": 0, "delta": 0}, {"item": 1, "delta": 0}]),
+            "compression": st.sampled_from([None, None, None, "zstd", "gzip"]),
+        }
+    ),
+    st.sampled_from([{"abs": 1 << 20}, {"abs": 65536}, {"abs": 4096}, {"abs": 2000}, {"abs": 1000}]),
+    st.one_of(
+        st.fixed_dictionaries({"of": st.sampled_from(["upload", "mixed", "mixed", "logical"]), "a": st.just(0), "b": st.integers(0, 5), "delta": _deltas}),
+        _ext_reln,
+    ),
+    st.sampled_from(["off", "off", "zstd", "gzip"]),
+    st.booleans(),
+)
+
+
 def main(chk: Check) -> None:
-    chk.explore("caps", cases, run_case, quick=500, thorough=12000)
+    chk.explore("caps", cases, run_case, quick=450, thorough=10000)
+    chk.explore("producer_ext", producer_ext_cases, run_case, quick=150, thorough=3000)
